@@ -39,6 +39,35 @@ type memHandle struct {
 	s        *memStore
 	key      string
 	released bool
+	// recorded is what the message held, in terms of recorded statistics,
+	// when the handle was obtained. Part (b) has one request in flight at a
+	// time, so every later difference was made through this handle.
+	recorded     *iscc.PreviousExecutionStats
+	recordedFull *iscc.PreviousExecutionStats
+}
+
+// recordedStats reduces a message to the statistics recorded for the action:
+// the outcome histories and the time of the last failure. The cached PageRank
+// start values and the empty per-size-class entries that GetStrategies leaves
+// behind are working state, not statistics: Select followed by Abandoned
+// legitimately changes those and releases the handle clean.
+func recordedStats(m *iscc.PreviousExecutionStats) *iscc.PreviousExecutionStats {
+	out := &iscc.PreviousExecutionStats{}
+	if m.GetLastSeenFailure() != nil {
+		out.LastSeenFailure = proto.Clone(m.LastSeenFailure).(*timestamppb.Timestamp)
+	}
+	for sc, pcs := range m.GetSizeClasses() {
+		if len(pcs.GetPreviousExecutions()) == 0 {
+			continue
+		}
+		if out.SizeClasses == nil {
+			out.SizeClasses = map[uint32]*iscc.PerSizeClassStats{}
+		}
+		c := proto.Clone(pcs).(*iscc.PerSizeClassStats)
+		c.InitialPageRankProbability = 0
+		out.SizeClasses[sc] = c
+	}
+	return out
 }
 
 func (s *memStore) Get(ctx context.Context, d digest.Digest) (statsHandle, error) {
@@ -47,7 +76,7 @@ func (s *memStore) Get(ctx context.Context, d digest.Digest) (statsHandle, error
 		s.msgs[key] = &iscc.PreviousExecutionStats{}
 	}
 	s.open++
-	return &memHandle{s: s, key: key}, nil
+	return &memHandle{s: s, key: key, recorded: recordedStats(s.msgs[key]), recordedFull: proto.Clone(s.msgs[key]).(*iscc.PreviousExecutionStats)}, nil
 }
 
 func (h *memHandle) GetMutableProto() *iscc.PreviousExecutionStats {
@@ -64,8 +93,17 @@ func (h *memHandle) Release(isDirty bool) {
 	}
 	h.released = true
 	h.s.open--
+	c := h.s.c
 	if isDirty {
-		h.s.c.dirtyReleases++
+		c.dirtyReleases++
+		return
+	}
+	if now := recordedStats(h.s.msgs[h.key]); !proto.Equal(now, h.recorded) {
+		c.violate("recorded-statistics-dropped", fmt.Sprintf("the analyzer recorded statistics in the message of a handle and then released the handle with isDirty=false, so they are never written to the ISCC; when obtained: %s, at Release(false): %s; %s", compactStats(h.recorded), compactStats(now), c.where))
+		return
+	}
+	if !proto.Equal(h.s.msgs[h.key], h.recordedFull) {
+		c.k.Probe("working_state_changed_but_released_clean")
 	}
 }
 
@@ -480,9 +518,15 @@ func (c *choices) run() {
 		for hop := 0; learner != nil && hop < 6 && !c.stopped; hop++ {
 			c.nOutcomes++
 			c.where = fmt.Sprintf("iteration %d action%d sizeClasses=%v learner=%T hop=%d stored=%s", it, ai, sizeClasses, learner, hop, compactStats(c.store.msgs[as.key]))
+			kind := fmt.Sprintf("%T", learner)
+			kind = kind[strings.LastIndex(kind, ".")+1:]
+			trained := kind == "smallerBackgroundLearner" // the success on the largest class is already in the message
 			switch o := t.Choice(8); {
-			case o == 0:
-				if !c.safely("Learner.Abandoned", func() { learner.Abandoned() }) {
+			case o == 0 || (trained && o == 1):
+				if trained {
+					c.k.Probe("smaller_background_learner_abandoned")
+				}
+				if !c.safely(kind+".Abandoned", func() { learner.Abandoned() }) {
 					return
 				}
 				learner = nil
@@ -504,6 +548,9 @@ func (c *choices) run() {
 				var e2, t2 time.Duration
 				var l2 initialsizeclass.Learner
 				cur := learner
+				if trained {
+					c.k.Probe("smaller_background_learner_succeeded")
+				}
 				if !c.safely(fmt.Sprintf("%T.Succeeded(%s, %v)", cur, dur, lists), func() { i2, e2, t2, l2 = cur.Succeeded(dur, lists) }) {
 					return
 				}
@@ -521,6 +568,9 @@ func (c *choices) run() {
 				var e2, t2 time.Duration
 				var l2 initialsizeclass.Learner
 				cur := learner
+				if trained {
+					c.k.Probe("smaller_background_learner_failed")
+				}
 				if !c.safely(fmt.Sprintf("%T.Failed(%v)", cur, timedOut), func() { e2, t2, l2 = cur.Failed(timedOut) }) {
 					return
 				}
